@@ -327,7 +327,7 @@ func calleeName(c *ast.CallExpr) string {
 
 func (ex *Exec) runAnchors(st *State, when, name string, ord int) (cut bool) {
 	for _, an := range ex.top.Spec.Anchors {
-		if an.When != when || an.Callee != name || an.Ord != ord {
+		if an.When != when || an.Callee != name || an.Ord != ord || !ex.propActive(an.Props) {
 			continue
 		}
 		env := ex.specEnvFor(st, ex.top)
@@ -956,6 +956,9 @@ func (ex *Exec) callContract(st *State, c *Contract, fi *FuncInfo, ct *callTarge
 				}
 			}
 			for _, g := range c.Ghosts {
+				if !ex.layerActive(g.Props) {
+					continue
+				}
 				// ghost updates are part of the callee's effect: callers see them as equalities
 				penv.ghostAssume(g)
 			}
@@ -1419,7 +1422,17 @@ func (ex *Exec) contractWriteKeys(ws *writeSet, c *Contract, fi *FuncInfo, calle
 // contracts; at a call site it is checked and used only if the calling function takes part in one of
 // those layers (its own contract mentions the tag). A caller outside the layer neither has to
 // establish the labelled preconditions nor may it use the labelled postconditions.
+// propActive: when one property is being checked, clauses labelled with other properties only are
+// switched off altogether (neither assumed nor proved, their ghost code not run), so that the
+// obligations of that property are proved in the context of its own layer.
+func (ex *Exec) propActive(props []string) bool {
+	return len(props) == 0 || ex.activeProp == "" || hasProp(props, ex.activeProp)
+}
+
 func (ex *Exec) layerActive(props []string) bool {
+	if !ex.propActive(props) {
+		return false
+	}
 	if len(props) == 0 || ex.top == nil || ex.top.Spec == nil {
 		return true
 	}
@@ -1480,6 +1493,9 @@ func (ex *Exec) entryState(fi *FuncInfo, c *Contract) (*State, *SpecEnv) {
 	func() {
 		defer ex.specRecover("requires of " + fi.Key)
 		for _, r := range c.Requires {
+			if !ex.propActive(r.Props) {
+				continue
+			}
 			st.assume(env.boolTerm(r.E))
 		}
 		for _, ps := range ex.prog.AllSpecs {
@@ -1629,9 +1645,15 @@ func (ex *Exec) checkPost(st *State, fi *FuncInfo, c *Contract, vals []Val) {
 		ex.oblige(st, "noalloc", nil, goal, "noalloc: the function allocates nothing", pos)
 	}
 	for _, g := range c.Ghosts {
+		if !ex.propActive(g.Props) {
+			continue
+		}
 		env.ghostUpdate(g)
 	}
 	for _, e := range c.Ensures {
+		if !ex.propActive(e.Props) {
+			continue
+		}
 		if e.Trusted {
 			ex.w.assumed["trusted postcondition (NOT proved) of "+fi.FullName()+": "+e.Src] = true
 			continue
